@@ -50,9 +50,10 @@ def run(R):
                 for wp, we in wakes:
                     obj = strip_casts(we.get("obj"))
                     for at, pol, b in fn.guard_atoms(wp):
-                        a = strip_casts(at)
-                        if pol and isinstance(a, dict) and a.get("k") == "var" and isinstance(obj, dict) and a.get("vid") == obj.get("vid"):
-                            null_edges.add((b, 1))
+                        # `if (ws)`, `if (ws != nullptr)`, `if (!ws) ... else`, `if (ws == nullptr) ... else`
+                        c = comparison_of(at, pol, lambda x: isinstance(strip_casts(x), dict) and strip_casts(x).get("k") == "var" and isinstance(obj, dict) and strip_casts(x).get("vid") == obj.get("vid"))
+                        if c and c[0] == "!=" and (const_val(c[1]) == 0 or (isinstance(strip_casts(c[1]), dict) and strip_casts(c[1]).get("k") == "null")):
+                            null_edges.add((b, 1 if pol else 0))
                 for sp, se in stops:
                     for jp, je in joins:
                         path = fn.path_to_exit_avoiding(sp, isw, include_noreturn=True, targets=lambda p, e, jp=jp: p == jp, removed_edges=null_edges)
